@@ -306,8 +306,14 @@ pub fn canary(client_port: u16, n: u32, tag: u64) -> Result<(), FlowFail> {
 /// warm-up exchange, no sync); the target starts reading `delay_ms` later and must read exactly those bytes and then
 /// end-of-stream. This is the everyday shape of a one-shot upload.
 pub fn cold_upload(client_port: u16, hs: Hs, n: u32, tag: u64, delay_ms: u16) -> Result<(), FlowFail> {
+    cold_upload_opt(client_port, hs, n, tag, delay_ms as u32, false)
+}
+
+/// `cold_upload` with a target that may come for the upload much later (`delay_ms` beyond every timer of the relay) and,
+/// with `small_rcvbuf`, takes little into its own receive queue meanwhile, so that the upload waits in the server's socket.
+pub fn cold_upload_opt(client_port: u16, hs: Hs, n: u32, tag: u64, delay_ms: u32, small_rcvbuf: bool) -> Result<(), FlowFail> {
     use std::io::Read;
-    let listener = Listener::bind();
+    let listener = if small_rcvbuf { Listener::bind_small_rcvbuf(2048) } else { Listener::bind() };
     let (mut app, pre) = net::app_connect(client_port, hs, listener.port, Duration::from_secs(15)).map_err(|e| soft("handshake", format!("local {} handshake failed: {}", hs.name(), e)))?;
     let n = (n as usize).max(1);
     net::write_ks(&mut app, tag, 0, n).map_err(|e| soft("app-write", format!("write of {} bytes: {}", n, e)))?;
